@@ -2,7 +2,9 @@ package main
 
 import (
 	"fmt"
+	"go/ast"
 	"go/token"
+	"go/types"
 	"regexp"
 	"strings"
 )
@@ -130,5 +132,35 @@ func ruleAtoms(c *Ctx) {
 			}
 		}
 		c.Check(okAll && nAccept >= 1, spec.fn+":literal", p.Pos(fd), "accepts exactly `"+spec.lit+"` followed by a structural or white-space byte", spec.fn+": "+why, "[tru0] / [nul] / [falsey]")
+		// the symbolic engine treats integer conversions as transparent: that is only right when none of them narrows
+		nar := narrowingConversions(p, fd)
+		c.Check(len(nar) == 0, spec.fn+":width", p.Pos(fd), "no narrowing integer conversion in the comparison", spec.fn+": "+strings.Join(nar, "; ")+" — bits of the compared word are dropped before the test, so some bytes of the literal are never compared", "[fals?,1] with at least 8 bytes left")
 	}
+}
+
+// narrowingConversions lists conversions T(x) in fd where T is an integer type narrower than the (non-constant) operand.
+func narrowingConversions(p *GoProg, fd *ast.FuncDecl) []string {
+	var out []string
+	sizes := types.SizesFor("gc", "amd64")
+	ast.Inspect(fd, func(n ast.Node) bool {
+		call, ok := n.(*ast.CallExpr)
+		if !ok || len(call.Args) != 1 {
+			return true
+		}
+		tv, ok := p.Info.Types[call.Fun]
+		if !ok || !tv.IsType() {
+			return true
+		}
+		to, ok1 := tv.Type.Underlying().(*types.Basic)
+		at := p.Info.Types[call.Args[0]]
+		from, ok2 := at.Type.Underlying().(*types.Basic)
+		if !ok1 || !ok2 || to.Info()&types.IsInteger == 0 || from.Info()&types.IsInteger == 0 || at.Value != nil {
+			return true
+		}
+		if sizes.Sizeof(to) < sizes.Sizeof(from) {
+			out = append(out, "`"+p.Str(call)+"` at "+p.Pos(call)+" narrows "+from.Name()+" to "+to.Name())
+		}
+		return true
+	})
+	return out
 }
